@@ -1,7 +1,7 @@
 import CalVerif.Lemmas.SharedFormula
 /-! # C15 — XLSX shared formulas expand to the translated formula of each member cell
 
-    Model: `Model/SharedFormula.lean` (the Rust code after the fixes D11, D12, D13);
+    Model: `Model/SharedFormula.lean` (the Rust code after the fixes D11, D12, D13 and the map-by-`si` repair);
     grammar/spec: `Spec/FormulaTokens.lean`; helper lemmas: `Lemmas/SharedFormula.lean`. -/
 
 namespace C15
@@ -237,6 +237,19 @@ theorem si_any_order (t : Table) (defs : List (Nat × Group)) (hd : (defs.map Pr
       exact keep ps _ hd.1 (Table.lookup_store_same t si g)
     · exact ih _ hd.2 h
 
+/-- the table holds at most one entry per declared group, whatever the values of `si` (the repair of
+    the table-sized-by-`si` regression: memory follows the number of groups) -/
+theorem table_size_bounded (t : Table) (defs : List (Nat × Group)) :
+    (storeAll t defs).length ≤ t.length + defs.length := by
+  unfold storeAll
+  induction defs generalizing t with
+  | nil => simp
+  | cons p ps ih =>
+    simp only [List.foldl_cons, List.length_cons]
+    have h1 := ih (t.store p.1 p.2)
+    have h2 := Table.store_length t p.1 p.2
+    omega
+
 /-- a permutation of the master definitions gives the same lookups -/
 theorem si_any_order_perm (t : Table) (defs defs' : List (Nat × Group)) (hp : defs.Perm defs')
     (hd : (defs.map Prod.fst).Nodup) (si : Nat) (g : Group) (hm : (si, g) ∈ defs) :
@@ -463,7 +476,7 @@ example :
   intro m other c1 c
   let toks : List Tok := [.ref true 0 false 0, .punct '+', .ref false 0 true 0]
   have hr : render toks = "$A1+A$1".toList := by decide
-  let t : Table := [some ⟨"$A1+A$1".toList, ⟨0, 1, 1, 2⟩, (0, 1)⟩, some ⟨"1".toList, ⟨0, 0, 0, 0⟩, (0, 0)⟩]
+  let t : Table := [(0, ⟨"$A1+A$1".toList, ⟨0, 1, 1, 2⟩, (0, 1)⟩), (1, ⟨"1".toList, ⟨0, 0, 0, 0⟩, (0, 0)⟩)]
   have ht : runTable [] ([other] ++ m :: [c1]) = .ok t := by decide
   refine ⟨t, ht, ?_⟩
   have hb : ∀ x ∈ [c1], ¬ definesGroup x 0 := by
